@@ -308,7 +308,10 @@ def _history(case, ctx, res):
 # ---------------------------------------------------------------- equality
 EQ_FIXED = ["identical", "one-element", "all-different", "other-units-equal", "other-units-unequal",
             "different-keys", "key-order", "empty-members", "zero-d-equal", "zero-d-unequal",
-            "vector-equal", "vector-one-component", "subset-keys", "broadcast-0d-vs-1", "empty-groups"]
+            "vector-equal", "vector-one-component", "subset-keys", "broadcast-0d-vs-1", "empty-groups",
+            # members that cannot be compared element-wise: never equal (raising is tolerated, True is not)
+            "incompatible-dimensions", "incompatible-dimensions-same-numbers", "shapes-do-not-broadcast",
+            "vector-nvec-differs", "second-member-incompatible"]
 
 
 def _mkgroup(osy, members):
@@ -388,6 +391,15 @@ def _eqfixed(case, ctx, res):
         "subset-keys": (mk(("a", A(a.copy())), ("b", A(b.copy()))), mk(("a", A(a.copy()))), False),
         "broadcast-0d-vs-1": (mk(("a", A(np.array(2.0), unit="m"))), mk(("a", A(np.array([2.0]), unit="m"))), True),
         "empty-groups": (mk(), mk(), True),
+        "incompatible-dimensions": (mk(("a", A(a.copy(), unit="m"))), mk(("a", A(b.copy(), unit="s"))), None),
+        "incompatible-dimensions-same-numbers": (mk(("a", A(a.copy(), unit="m"))), mk(("a", A(a.copy(), unit="s"))), None),
+        "shapes-do-not-broadcast": (mk(("a", A(a.copy(), unit="m"))), mk(("a", A(np.array([1.0, 2.0]), unit="m"))), None),
+        # (a Vector member against an Array member is not judged: comparisons broadcast an Array over the components
+        #  - C09 - so Vector(a, a) == Array(a) is element-wise true, and the statement does not say which it should be)
+        "vector-nvec-differs": (mk(("a", osy.Vector(a.copy(), a.copy(), unit="m"))),
+                                mk(("a", osy.Vector(a.copy(), a.copy(), a.copy(), unit="m"))), None),
+        "second-member-incompatible": (mk(("a", A(a.copy(), unit="m")), ("b", A(b.copy(), unit="s"))),
+                                       mk(("a", A(a.copy(), unit="m")), ("b", A(b.copy(), unit="g"))), None),
     }
     g1, g2, exp = pairs[name]
     _judge_eq(res, f"fixed pair '{name}'", g1, g2, exp, {"pair": name})
